@@ -368,10 +368,10 @@ def parse_json(out):
             removed = blk["original"].split("\n")[:-1]
             inserted = blk["expected"].split("\n")[:-1]
             # the block says "lines original_begin_line..=original_end_line become `expected`"; a block that removes
-            # (inserts) nothing has end == begin by convention, so the counts come from the texts
+            # (inserts) nothing has no meaningful end line (end == begin in this snapshot), so only non-empty sides are checked
             for side, lines_, b, e in (("original", removed, blk["original_begin_line"], blk["original_end_line"]),
                                        ("expected", inserted, blk["expected_begin_line"], blk["expected_end_line"])):
-                if (lines_ and e != b + len(lines_) - 1) or (not lines_ and e != b):
+                if lines_ and e != b + len(lines_) - 1:
                     raise ReportError(f"json block {side}_begin_line={b} {side}_end_line={e} but its {side} text has {len(lines_)} lines")
             edits.append((blk["original_begin_line"], removed, inserted, blk["expected_begin_line"]))
         res.setdefault(ent["name"], []).extend(edits)
